@@ -200,6 +200,14 @@ def pool():
                      "page": {"nrow": 12}, "title": TT, "footnote": FN}
     P["paged_s14"] = {"kind": "table", "df": tagged(20, 3, extra=[long_text]), "body": {"text_font_size": 14, "text_font": 4},
                       "page": {"nrow": 12}, "title": TT, "footnote": FN}
+    # one table-rendered source / footnote (with borders of their own) used by several documents: an ordinary one,
+    # one without rows, one whose page closes with no border at all
+    SRT = {"text": "SR0", "as_table": True, "border_bottom": "dashed"}
+    FNT = {"text": ["FN0", "FN1"], "as_table": True, "border_bottom": [["", "dotted"]]}
+    P["tsrc_3"] = {"kind": "table", "df": tagged(3, 2), "body": {}, "title": TT, "source": SRT, "footnote": FNT}
+    P["tsrc_0"] = {"kind": "table", "df": tagged(0, 2), "body": {}, "title": TT, "source": SRT, "footnote": FNT}
+    P["tsrc_nb"] = {"kind": "table", "df": tagged(2, 2), "body": {}, "title": TT, "source": SRT,
+                    "page": {"border_last": "", "border_first": ""}}
     return P
 
 
